@@ -274,6 +274,19 @@ func byzOrchCatalogue(e common.Env) []ocase {
 		oc.limit, oc.samples = 0, smp
 		out = append(out, oc)
 	}
+	// identifiers that agree modulo 256 (and modulo other powers of two): the Byzantine sender equivocates, its accomplice with the
+	// aliasing identifier broadcasts to each honest node, as ITS OWN message, the version the other honest node gets from the sender
+	// (so honest nodes acknowledge the sender's two versions as broadcasts of the accomplice), and reflects acknowledgements
+	for _, al := range [][2]uint16{{2, 258}, {2, 514}, {7, 32775}, {300, 44}} {
+		sdr, acc := al[0], al[1]
+		ids := []uint16{1, sdr, 3, acc}
+		for _, sign := range []bool{false, true} {
+			kind := map[bool]string{false: "dkg", true: "sign"}[sign]
+			add(fmt.Sprintf("%s N=4 aliasing identifiers: sender %d equivocates, accomplice %d broadcasts the other version and reflects", kind, sdr, acc), ids, nil, sign,
+				map[uint16]*byzPlan{sdr: {RouteVersion: map[uint8][]uint16{1: {1}, 2: {3}}, CopyAs: map[uint8]copyAs{1: {acc, []uint16{3}}, 2: {acc, []uint16{1}}}}, acc: {ReflectAcks: true, Mute: true, ReflectOnlyVersion: map[uint16]uint8{1: 1, 3: 2}}},
+				nil, []uint16{sdr}, map[uint16]int{sdr: 2}, lim4, smp)
+		}
+	}
 	// key generation with a threshold below n-1: every party takes part, so a broadcast still needs the vouchers of all the others
 	lowT := func(name string, ids []uint16, t int, byz map[uint16]*byzPlan, limit, samples int) {
 		add(name, ids, nil, false, byz, nil, []uint16{1}, map[uint16]int{1: 2}, limit, samples)
